@@ -304,6 +304,41 @@ pub fn run() -> Report {
     for p in parts {
         rep.merge(p);
     }
+    long_index_case(&mut rep, &root, if thorough { 1_000_000 } else { 150_000 }, "csvdump");
     let _ = std::fs::remove_dir_all(&root);
     rep
+}
+
+/// Scale: an index as long as a real one (150 000 / 1 000 000 linked records) with a fully validated stale branch of 12 blocks
+/// forking off genesis. Heights 0..=12 are read (`--end 12`): the active chain there is the one the tip's prev_hash walk reaches,
+/// however far below the tip it lies.
+pub fn long_index_case(rep: &mut Report, root: &std::path::Path, total: usize, cb: &str) {
+    let total = std::env::var("VERIF_LONG_INDEX").ok().and_then(|v| v.parse().ok()).unwrap_or(total);
+    let btc = coin("bitcoin");
+    let real = dependent_chain(btc, 0, 14);
+    let mut stale: Vec<Block> = Vec::new();
+    for h in 1..=12u64 {
+        let parent = if h == 1 { None } else { Some(stale[h as usize - 2].hash()) };
+        stale.push(competitor(&real.blocks, h, 40 + h as u32, h % 2 == 0, parent));
+    }
+    let world = crate::gen::headers_only_world(btc, &real, total, &stale);
+    let wk = Worker::new(root, 960);
+    let mut spec = RunSpec::new("bitcoin", cb).range(None, Some(12));
+    spec.env.push(("VERIF_RUN_TIMEOUT".into(), "900".into()));
+    let desc = json!({"kind": "e1-described", "layout": format!("{} linked index records (14 with block data, the rest headers only), stale validated branch at heights 1..12, --end 12", total)});
+    match wk.world_run(&world, &spec) {
+        Err(m) => rep.machinery(m),
+        Ok(r) => {
+            rep.states += 1;
+            rep.transitions += 1;
+            rep.count(&format!("long-index-{}", total), 1);
+            rep.nontrivial.insert(h8(format!("long-index-{}", total).as_bytes()));
+            let all = real.mblocks();
+            let bad = if cb == "csvdump" { check_csvdump(&r, btc, &in_range(&all, 0, 12), 0, 12) } else { check_unspent(&r, btc, &in_range(&all, 0, 12), 0, 12) };
+            if let Some((sig, detail)) = bad.into_iter().next() {
+                rep.disagree(&format!("long-index:{}", sig), detail.chars().take(500).collect(), desc);
+            }
+        }
+    }
+    wk.cleanup();
 }
